@@ -341,7 +341,7 @@ def dict_stream(ctx, res, n):
             r = rng.random()
             pairs = [kv() for _ in range(rng.randint(0, 3))]
             pairs = [(k, v) for k, v in pairs if hashable(k)]
-            form = rng.choice(["dict", "pairs", "proxy", "tuplepairs"])
+            form = rng.choice(["dict", "pairs", "proxy", "tuplepairs", "selfcopy"])
             kw = [kv(0.05) for _ in range(rng.randint(0, 2))] if rng.random() < 0.4 else []
             kw = list({k: v for k, v in kw if isinstance(k, str) and k.isidentifier()}.items())
             if r < 0.25:
@@ -362,6 +362,11 @@ def dict_stream(ctx, res, n):
                     pairs = list(dict(okp).items())
                 elif form == "dict":
                     pairs = list(dict(pairs).items())
+                elif form == "selfcopy":
+                    # a snapshot of the typed dict itself (same configuration, same field): the proxies' own fast path, plus keywords
+                    src_pairs = proxy.copy()
+                    pairs = list(src_pairs.items())
+                    compat = True
                 name, wire = "update", {"op": "update", "pairs": [[F.enc_val(a), F.enc_val(b)] for a, b in pairs], "compatible": compat,
                                         "kw": [[F.enc_val(a), F.enc_val(b)] for a, b in kw]}
                 src = src_pairs if form != "tuplepairs" else tuple(tuple(p) for p in pairs)
